@@ -219,7 +219,11 @@ def sharing_signature(o):
         elif is_dataclass(x):
             for f in x.__dataclass_fields__.keys():
                 walk(getattr(x, f))
-        elif isinstance(x, (deque, tuple, set)):
+        elif isinstance(x, set):
+            # iteration order of a set is not part of the contract: canonical order
+            for y in sorted(x, key=lambda e: json.dumps(canon(observe(e)), sort_keys=True)):
+                walk(y)
+        elif isinstance(x, (deque, tuple)):
             for y in x:
                 walk(y)
         n = len(seen)
